@@ -58,7 +58,7 @@ def isna(value):
 
 def xiseven_odd(number, odd=False):
     number = tuple(flatten(number, None))
-    if len(number) > 1 or isinstance(number[0], bool):
+    if len(number) > 1 or isinstance(number[0], (bool, np.bool_)):
         return Error.errors['#VALUE!']
     number = number[0]
     if isinstance(number, XlError):
@@ -91,7 +91,7 @@ FUNCTIONS['ISNONTEXT'] = wrap_ranges_func(functools.partial(
     array=TrueArray
 ))
 FUNCTIONS['ISLOGICAL'] = wrap_ranges_func(functools.partial(
-    iserror, check=lambda x: isinstance(x, bool), array=FalseArray
+    iserror, check=lambda x: isinstance(x, (bool, np.bool_)), array=FalseArray
 ))
 FUNCTIONS['ISNA'] = wrap_ranges_func(functools.partial(
     iserror, check=isna, array=TrueArray
